@@ -212,13 +212,23 @@ Proof.
   intros Hf. revert i. induction l as [|x l IH]; intros [|i]; simpl; auto; now rewrite ?Hf, ?IH.
 Qed.
 
+(* "the stream has an open segment" (absent streams count as not open) *)
+Definition opened_at (m : mstate) (si : nat) : bool :=
+  match nth_error (m_streams m) si with
+  | Some s => match st_open s with Some _ => true | None => false end
+  | None => false
+  end.
+
 Section Traverse.
   Variable GG : mstate -> Prop.
   Hypothesis H_frame : forall m tracks pending sdurs adj freeze errs,
     map tk_frame tracks = map tk_frame (m_tracks m) ->
     GG m -> GG {| m_cfg := m_cfg m; m_tracks := tracks; m_streams := m_streams m; m_pending := pending;
                   m_sdurs := sdurs; m_adj := adj; m_freeze := freeze; m_paths := m_paths m; m_errs := errs |}.
-  Hypothesis H_create : forall m d ntp, GG m -> GG (createFirstSegment m d ntp).
+  (* createFirstSegment is only ever called for a track of the state whose stream is not open *)
+  Hypothesis H_create : forall m d ntp ti t,
+    nth_error (m_tracks m) ti = Some t -> opened_at m (tk_stream t) = false ->
+    GG m -> GG (createFirstSegment m d ntp).
   Hypothesis H_rotp : forall m si d, GG m -> GG (stream_rotateParts m si d true).
   Hypothesis H_rots : forall m si d ntp f, GG m -> GG (stream_rotateSegments m si d ntp f).
   Hypothesis H_copy : forall m i (l : stream) (both : bool),
@@ -269,7 +279,7 @@ Section Traverse.
   Lemma T_fmp4WriteSample m ti ra pc smp : GG m -> GG (fst (fmp4WriteSample m ti ra pc smp)).
   Proof.
     intros H. unfold fmp4WriteSample.
-    destruct (nth_error (m_tracks m) ti) as [t|]; [|exact H].
+    destruct (nth_error (m_tracks m) ti) as [t|] eqn:Ht; [|exact H].
     destruct (_ <? 0); [exact H|].
     destruct (tk_next t) as [prev|]; [|cbn [fst wok]; (tut; assumption)].
     match goal with |- context [if ?c then wok ?a else _] =>
@@ -278,8 +288,10 @@ Section Traverse.
       assert (H3 : GG m3); [|destruct (part_writeSample m3 ti si smp) as [m4| |] eqn:Ew; [|exact H3|exact H3]] end.
     { match goal with |- GG (if ?c then fmp4AdjustPartDuration ?x ?y else ?z) => destruct c end;
         try apply T_adjust;
-        match goal with |- GG (if ?c then createFirstSegment ?x ?y ?z else ?w) => destruct c end;
-        try apply H_create; (tut; assumption). }
+        (match goal with |- GG (if ?c then createFirstSegment ?x ?y ?z else ?w) => destruct c eqn:Ec end;
+         [|(tut; assumption)]);
+        (apply andb_true_iff in Ec; destruct Ec as [_ Ec]; apply negb_true_iff in Ec;
+         eapply H_create; [apply (nth_error_upd_same _ ti _ t Ht)|exact Ec|(tut; assumption)]). }
     pose proof (H_pws _ _ _ _ _ H3 Ew) as H4.
     destruct (negb (tk_leading t)); [exact H4|].
     destruct (nth_error (m_streams m4) (tk_stream t)) as [s|]; [|exact H4].
@@ -300,21 +312,36 @@ Section Traverse.
         repeat (first [apply T_set_pending | tut]); exact H.
   Qed.
 
-  Lemma T_write_video m ti t a : GG m -> GG (fst (write_video m ti t a)).
+  Lemma video_params_track m ti t a ex :
+    nth_error (m_tracks m) ti = Some t ->
+    exists t1, nth_error (m_tracks (fst (video_params m ti t a ex))) ti = Some t1 /\ tk_stream t1 = tk_stream t.
   Proof.
-    intros H. unfold write_video.
+    intros Ht. unfold video_params.
+    destruct (a_params a) as [p|].
+    - destruct (ex && negb (p =? tk_params t));
+        match goal with |- context [if ?c then _ else _] => destruct c end; cbn [fst set_pending upd_track set_tracks m_tracks];
+        try (rewrite (nth_error_upd_same _ ti _ t Ht)); eauto.
+    - match goal with |- context [if ?c then _ else _] => destruct c end; cbn [fst set_pending m_tracks]; eauto.
+  Qed.
+
+  Lemma T_write_video m ti t a : nth_error (m_tracks m) ti = Some t -> GG m -> GG (fst (write_video m ti t a)).
+  Proof.
+    intros Ht H. unfold write_video.
     set (ex := match t_kind (tk_cfg t) with H264 | H265 => true | _ => a_ra a end).
     pose proof (T_video_params m ti t a ex H) as H1.
-    destruct (video_params m ti t a ex) as [m1 pc]. cbn [fst] in H1.
+    destruct (video_params_track m ti t a ex Ht) as (t1 & Ht1 & Es1).
+    destruct (video_params m ti t a ex) as [m1 pc]. cbn [fst] in H1, Ht1.
     assert (H2 : GG (set_firstRA m1 ti)) by (unfold set_firstRA; (tut; assumption)).
     destruct (t_kind (tk_cfg t)).
     - destruct (negb (a_ra a) && negb (a_nonidr a)); [exact H1|].
       destruct (negb (tk_firstRA t) && negb (a_ra a)); [exact H1|].
       destruct (c_variant (m_cfg m)).
       + apply H_ts.
-        match goal with |- GG (if ?c then _ else _) => destruct c end.
-        * apply H_create. exact H2.
-        * destruct (nth_error _ _); [|exact H2].
+        match goal with |- GG (if ?c then _ else _) => destruct c eqn:Ec end.
+        * apply negb_true_iff in Ec.
+          eapply (H_create _ _ _ ti); [unfold set_firstRA, upd_track; cbn [set_tracks m_tracks]; apply (nth_error_upd_same _ ti _ t1 Ht1)| |exact H2].
+          cbn [tk_with tk_stream]. rewrite Es1. exact Ec.
+        * destruct (nth_error (m_streams (set_firstRA m1 ti)) (tk_stream t)); [|exact H2].
           match goal with |- GG (if ?c then _ else _) => destruct c end; [|exact H2].
           now apply T_rotateSegments.
       + apply T_fmp4WriteSample. exact H2.
@@ -339,16 +366,17 @@ Section Traverse.
     destruct k; apply IH; exact H1.
   Qed.
 
-  Lemma T_write_audio m ti t a : GG m -> GG (fst (write_audio m ti t a)).
+  Lemma T_write_audio m ti t a : nth_error (m_tracks m) ti = Some t -> GG m -> GG (fst (write_audio m ti t a)).
   Proof.
-    intros H. unfold write_audio.
+    intros Ht H. unfold write_audio.
     destruct (c_variant (m_cfg m)); try (apply T_write_audio_units; exact H).
-    destruct (nth_error (m_streams m) (tk_stream t)) as [s|]; [|exact H].
+    destruct (nth_error (m_streams m) (tk_stream t)) as [s|] eqn:Es; [|exact H].
     match goal with |- context [if ?c then wok m else _] => destruct c; [exact H|] end.
     apply H_ts.
     destruct (tk_leading t); [|exact H].
-    match goal with |- GG (if ?c then _ else _) => destruct c end.
-    - now apply H_create.
+    match goal with |- GG (if ?c then _ else _) => destruct c eqn:Ec end.
+    - apply negb_true_iff in Ec. eapply H_create; [exact Ht| |exact H].
+      unfold opened_at. rewrite Es. exact Ec.
     - destruct (st_open s); [|exact H].
       match goal with |- GG (if ?c then _ else _) => destruct c end; [|exact H].
       now apply T_rotateSegments.
@@ -357,7 +385,7 @@ Section Traverse.
   Lemma T_mux_step m o : GG m -> GG (fst (mux_step m o)).
   Proof.
     intros H. destruct o as [ti a]. unfold mux_step, mux_write.
-    destruct (nth_error (m_tracks m) ti) as [t|]; [|exact H].
+    destruct (nth_error (m_tracks m) ti) as [t|] eqn:Ht; [|exact H].
     destruct (isVideo _); [now apply T_write_video|now apply T_write_audio].
   Qed.
 
